@@ -30,6 +30,10 @@ CHECKS = {
    technique="the same TLC state sets (MC_C01, MC_C02) replayed into two builds of gtree (default, and a worker process compiled with -tags tinywasm); decisions and bytes compared with each other and with the specification",
    text="The tinywasm files are a second implementation of the actions already specified (MdDoc with Gen=slice, Render, dry-run report); every state of C01's and C02's models (well-formed and malformed documents) is run through both builds in four modes (text, custom branch strings, JSON, dry-run + extension): same accept/reject decision (and the specification's), byte-identical output when accepted, and equality with the specification's rows / dry-run report.",
    note="The tinywasm variant is exercised as a native process built with the tag (not under a wasm runtime); YAML/TOML are not claimed for it."),
+ 'C12': dict(level=MC, ref='DESIGN.md 7/C12, 3.2',
+   technique="TLA+ spec (MdLine/MdDoc totality over the FULL token alphabet) model-checked by TLC; every state replayed through every entry point x {simple, massive} in isolated worker processes (a panic in any goroutine kills the worker and is attributed to the input in flight); seeded raw-byte / mutation / over-long-line inputs, their accept/reject decision validated by TLC (TraceDoc)",
+   text="TLC exhausts every document of at most 2 (thorough 3) lines of at most 2 tokens over the full 11-token alphabet (every degenerate input is a member by construction) and checks totality of the transcribed parser/generator, BlankOnlyIsEmpty and NoNilRoot; each state is run through 19 entry-point routes (output text/json/yaml/toml/dry-run, walk, mkdir, mkdir dry-run, verify; simple and massive) in worker processes with a per-call deadline: never a panic in any goroutine, never a hang, empty/blank-only input gives empty output, nothing created and nil; what tokens cannot express (invalid UTF-8, NUL, binary, 64 KiB+ lines, byte mutations of valid documents) is sampled with a seeded generator, and the decision of each sampled input is checked against the specification through its token abstraction.",
+   note="Exhaustive over token documents, sampling over raw bytes. Crashes are observed at process level; hangs by a 30 s deadline per call."),
 }
 
 NOT_YET = "check not built yet (framework under construction; see DESIGN.md section 7)"
